@@ -31,14 +31,20 @@ type qTF struct {
 	D    time.Duration
 }
 
-// Every timeframe a bucket can be stored *and queried* at. "4H" is left out on purpose: utils.Timeframes
-// lists 4H before 2H, so CandleDuration.QueryableTimeframe("4H") answers "2H" and ExecuteQuery on a 4H
-// bucket looks into the 2H bucket (observed: a written 4H bucket is never returned). That is a defect of
-// the timeframe table (C31's territory), not of range/limit/projection.
+// Every timeframe a bucket can be stored and queried at (utils.Timeframes). "4H" was unqueryable on the pinned
+// tree (F-4H: the table listed 4H before 2H, so a 4H query was redirected to the 2H bucket; first seen here as
+// "unrestricted query returns nothing"); it is included again since the repair cbfbaf2.
 var qTFs = []qTF{
 	{"1Sec", time.Second}, {"10Sec", 10 * time.Second}, {"30Sec", 30 * time.Second}, {"1Min", time.Minute},
 	{"5Min", 5 * time.Minute}, {"15Min", 15 * time.Minute}, {"30Min", 30 * time.Minute}, {"1H", time.Hour},
-	{"2H", 2 * time.Hour}, {"1D", 24 * time.Hour},
+	{"2H", 2 * time.Hour}, {"4H", 4 * time.Hour}, {"1D", 24 * time.Hour},
+}
+
+// pickTF draws a timeframe. 1Sec and 10Sec year files have 31.5M / 3.2M slots: a scan over a whole year costs
+// ~1 s, so they get half the weight of the others (same code path, only slower to scan); 1D gets a little more
+// (its index arithmetic is a special case).
+func pickTF(r *gen.R) qTF {
+	return qTFs[r.PickI(0, 1, 2, 2, 3, 3, 4, 4, 5, 5, 6, 6, 7, 7, 8, 8, 9, 9, 10, 10, 10)]
 }
 
 type qCol struct {
@@ -130,9 +136,8 @@ func genHist(r *gen.R, o qOpts) *qHist {
 		} else if o.SmallTF {
 			tf = &qTFs[3+r.Intn(len(qTFs)-3)]
 		} else {
-			// 1Sec and 10Sec year files have 31.5M / 3.2M slots: a scan over a whole year costs ~1 s, so they get
-			// half the weight of the other timeframes (they are the same code path, only slower to scan)
-			tf = &qTFs[r.PickI(0, 1, 2, 2, 3, 3, 3, 4, 4, 5, 5, 6, 6, 7, 7, 8, 8, 9, 9, 9)]
+			t := pickTF(r)
+			tf = &t
 		}
 	}
 	h.TF, h.D = tf.Name, tf.D
